@@ -1,0 +1,79 @@
+// Copyright ©2015 The bíogo Authors. All rights reserved.
+// Use of this source code is governed by a BSD-style
+// license that can be found in the LICENSE file.
+
+//go:build verif
+
+// Contracts for the hvc verifier (see /verif/DESIGN.md). This file contains
+// comments only; it adds nothing to the package.
+package index
+
+// Virtual offsets order file positions: (File, Block) lexicographically, i.e.
+// File*2^16 + Block. Offsets are well-formed when File fits the 48 bits the
+// BGZF virtual offset gives it.
+//@ spec func vo(o bgzf.Offset) int64 = o.File*65536 + int64(o.Block)
+//@ spec func wfOff(o bgzf.Offset) bool = 0 <= o.File && o.File < 140737488355328
+//@ spec func wfChunk(c bgzf.Chunk) bool = wfOff(c.Begin) && wfOff(c.End) && vo(c.Begin) <= vo(c.End)
+//@ spec func wfChunks(s []bgzf.Chunk) bool = forall k in 0..len(s) :: wfChunk(s[k])
+//@ spec func sortedByBegin(s []bgzf.Chunk) bool = forall i in 0..len(s) :: forall j in i..len(s) :: vo(s[i].Begin) <= vo(s[j].Begin)
+//@ spec func covers(c bgzf.Chunk, x bgzf.Chunk) bool = vo(c.Begin) <= vo(x.Begin) && vo(x.End) <= vo(c.End)
+//@ spec func holds(c bgzf.Chunk, p int64) bool = vo(c.Begin) <= p && p < vo(c.End)
+
+//@ func vOffset
+//@   inline
+
+//@ func identity
+//@   mode int
+//@   props C17
+//@   ensures[C17] @same result == chunks
+
+//@ func squash
+//@   mode int
+//@   props C17
+//@   terminates
+//@   requires sortedByBegin(chunks) && wfChunks(chunks)
+//@   loop 0 invariant @idx 0 - 1 <= rangeindex && rangeindex <= len(chunks) - 2 && len(chunks) >= 1
+//@   loop 0 invariant @right wfOff(right) && vo(chunks[0].Begin) <= vo(right) &&
+//@       (forall k in 0..rangeindex+2 :: vo(chunks[k].End) <= vo(right)) &&
+//@       (exists k in 0..rangeindex+2 :: chunks[k].End == right)
+//@   loop 0 decreases len(chunks) - rangeindex
+//@   ensures[C17] @empty len(chunks) == 0 ==> result == nil
+//@   ensures[C17] @single len(chunks) > 0 ==> len(result) == 1 && result[0].Begin == chunks[0].Begin
+//@   ensures[C17] @enclosing len(chunks) > 0 ==> forall k in 0..len(chunks) :: covers(result[0], chunks[k])
+//@   ensures[C17] @tight len(chunks) > 0 ==> exists k in 0..len(chunks) :: chunks[k].End == result[0].End
+//@   ensures[C17] @unchanged forall k in 0..len(chunks) :: chunks[k] == old(chunks[k])
+
+// adjacent: merges every chunk that starts at or before the end of its
+// predecessor into it, in place. d = len(old(chunks)) - len(chunks) is the
+// number of chunks deleted so far; chunks[0..c) is the finished prefix, which
+// has consumed the first c+d input chunks. w[i] is the index of the finished
+// chunk that covers input chunk i (ghost witness). inOld(s, p) says that
+// position p is covered by some chunk of s as it was at entry.
+//@ spec func separated(s []bgzf.Chunk) bool = forall k in 0..len(s) :: forall m in 0..len(s) :: m == k+1 ==> vo(s[k].End) < vo(s[m].Begin)
+//@ func adjacent
+//@   mode int
+//@   props C17
+//@   terminates
+//@   requires sortedByBegin(chunks) && wfChunks(chunks)
+//@   modifies chunks[:]
+//@   def inOld(p int64) bool = exists i in 0..len(chunks) :: holds(chunks[i], p)
+//@   ghost w map[int]int
+//@   at append#0 assert fits
+//@   at loop 0 back ghost w[c + len(old(chunks)) - len(chunks) - 1] = c - 1
+//@   loop 0 invariant @shape 1 <= c && c <= len(chunks) && len(chunks) <= len(old(chunks)) && sameArray(chunks, old(chunks)) && cap(chunks) == cap(old(chunks))
+//@   loop 0 invariant @tail forall k in c..len(chunks) :: chunks[k] == old(chunks[now(k + len(old(chunks)) - len(chunks))])
+//@   loop 0 invariant @prefixwf forall k in 0..c :: wfChunk(chunks[k])
+//@   loop 0 invariant @prefixsep forall k in 0..c :: forall m in 0..c :: m == k+1 ==> vo(chunks[k].End) < vo(chunks[m].Begin)
+//@   loop 0 invariant @prefixsorted forall i in 0..c :: forall j in i..c :: vo(chunks[i].Begin) <= vo(chunks[j].Begin)
+//@   loop 0 invariant @link forall k in c..len(chunks) :: vo(chunks[c-1].Begin) <= vo(chunks[k].Begin)
+//@   loop 0 invariant @covered forall i in 0..c + len(old(chunks)) - len(chunks) :: 0 <= w[i] && w[i] < c && covers(chunks[w[i]], old(chunks[i]))
+//@   loop 0 invariant @exact forall p int64 :: forall j in 0..c :: holds(chunks[j], p) ==> inOld(p)
+//@   loop 0 invariant @idem old(separated(chunks)) ==> (len(chunks) == len(old(chunks)) && forall k in 0..len(chunks) :: chunks[k] == old(chunks[k]))
+//@   loop 0 decreases 2*len(chunks) - c
+//@   ensures[C17] @empty len(chunks) == 0 ==> result == nil
+//@   ensures[C17] @wf wfChunks(result)
+//@   ensures[C17] @sorted sortedByBegin(result)
+//@   ensures[C17] @separated separated(result)
+//@   ensures[C17] @covered forall i in 0..len(chunks) :: exists j in 0..len(result) :: covers(result[j], old(chunks[i]))
+//@   ensures[C17] @exact forall p int64 :: forall j in 0..len(result) :: holds(result[j], p) ==> inOld(p)
+//@   ensures[C17] @idempotent old(separated(chunks)) && len(chunks) > 0 ==> (result == chunks && forall k in 0..len(chunks) :: chunks[k] == old(chunks[k]))
